@@ -62,9 +62,12 @@ def parseValPrefix (t : List Char) : Option (PyVal × List Char) :=
   | '(' :: t' =>
     match parseStrLit t' with
     | some (s, t'') =>
-      match parseTail ')' (t''.length + 1) t'' with
-      | some (xs, rest) => some (.tuple (s :: xs), rest)
-      | none => none
+      match t'' with
+      | ')' :: _ => none          -- `('a')` is a parenthesised string, not a tuple: outside the grammar
+      | _ =>
+        match parseTail ')' (t''.length + 1) t'' with
+        | some (xs, rest) => some (.tuple (s :: xs), rest)
+        | none => none
     | none => none
   | '[' :: t' =>
     match parseStrLit t' with
